@@ -165,7 +165,11 @@ def canon(x):
     if isinstance(x, dict):
         return {str(k): canon(v) for k, v in x.items()}
     if isinstance(x, np.ndarray):
+        if x.ndim == 0:
+            return canon(x.item())
         return [canon(v) for v in x.tolist()]
+    if isinstance(x, (complex, np.complexfloating)):
+        return ('complex', complex(x))
     if isinstance(x, (list, tuple)):
         return [canon(v) for v in x]
     return ('repr', repr(x))
@@ -260,7 +264,7 @@ def gen_value(r, section, key, ctx):
         return t_bool(r, v), v
     if section == 'simulation':
         if key == 'max_workers':
-            v = int(gen.choice(r, [1, 1, 2, 3]))
+            v = int(gen.choice(r, ctx.get('workers', [1]*8 + [2, 3])))
             return str(v), v
         if key == 'gridding':
             v = gen.choice(r, ctx.get('griddings',
